@@ -33,6 +33,7 @@ type Case struct {
 	Rows  [][]dbh.Row    `json:"rows"`
 	KB    int            `json:"kb"`
 	Steps []Step         `json:"steps"`
+	Stats []string       `json:"stats,omitempty"` // per table: "" (no statistics) | "low" (computed after the first 2 rows) | "fresh" (after the load): steers the join algorithm
 }
 
 type stats struct {
@@ -86,13 +87,46 @@ func run(c *Case, st *stats) *vf.Failure {
 		for j, cl := range def.Cols {
 			names[j] = cl.Name
 		}
-		for r := 0; r < len(c.Rows[i]); r += 20 {
+		updateStats := func() *vf.Failure {
+			before := db.PinnedPages()
+			tm := db.Cat().GetTableByName(def.Name)
+			t := db.Begin()
+			err := tm.GetStatistics().Update(tm, t.T)
+			t.Commit()
+			if err != nil {
+				return vf.Failf("stats-error", "%v", err)
+			}
+			if d := diffPins(before, db.PinnedPages()); d != "" {
+				return vf.Failf("pin-leak:statistics-update", "statistics update of %s: pinned frames changed: %s", def.Name, d)
+			}
+			st.classes["statistics-update"] = true
+			return nil
+		}
+		stats := ""
+		if i < len(c.Stats) {
+			stats = c.Stats[i]
+		}
+		for r := 0; r < len(c.Rows[i]); {
 			e := r + 20
+			if stats == "low" && r == 0 {
+				e = 2
+			}
 			if e > len(c.Rows[i]) {
 				e = len(c.Rows[i])
 			}
 			if _, err := db.Auto(&dbh.Stmt{Kind: "insert", Table: def.Name, Cols: names, Rows: c.Rows[i][r:e], Plan: true}); err != nil {
 				return vf.Failf("load-error", "%v", err)
+			}
+			if stats == "low" && r == 0 {
+				if f := updateStats(); f != nil {
+					return f
+				}
+			}
+			r = e
+		}
+		if stats == "fresh" {
+			if f := updateStats(); f != nil {
+				return f
 			}
 		}
 	}
@@ -208,7 +242,7 @@ func genCase(t *rapid.T) *Case {
 	if sess != nil && sess.ExclusionOn("sentinel-strings") {
 		prof.NoSentinelStr = true
 	}
-	c.Defs = sqlgen.JoinTables(t, 2)
+	c.Defs = sqlgen.JoinTables(t, rapid.SampledFrom([]int{2, 2, 3}).Draw(t, "ntables")) // three tables: chains / stars, where the optimizer also picks nested loop joins
 	nIdx := 0
 	for _, d := range c.Defs {
 		for _, cl := range d.Cols {
@@ -222,12 +256,16 @@ func genCase(t *rapid.T) *Case {
 	payload := int32(0)
 	for i := range c.Defs {
 		n := rapid.SampledFrom([]int{0, 3, 12, 60, 250}).Draw(t, "nrows")
+		if len(c.Defs) == 3 && n > 40 {
+			n = 40 // a three-table nested loop join visits the whole cross product
+		}
 		var rows []dbh.Row
 		for r := 0; r < n; r++ {
 			payload++
 			rows = append(rows, sqlgen.JoinRow(t, &c.Defs[i], prof, payload))
 		}
 		c.Rows = append(c.Rows, rows)
+		c.Stats = append(c.Stats, rapid.SampledFrom([]string{"", "low", "fresh", "fresh"}).Draw(t, "stats"))
 	}
 	joinsOff := sess != nil && sess.ExclusionOn("hash-join-pin-leak")
 	ns := rapid.IntRange(1, 10).Draw(t, "nsteps")
@@ -279,7 +317,7 @@ func genCase(t *rapid.T) *Case {
 	return c
 }
 
-const rule = "Case = (two tables with skip-list / no indexes, 0-250 rows each, pool from the minimum (3 frames per skip-list index + 8) to +60 frames; 1-10 steps: SELECT (sequential / index range scans, selection, projection), INSERT (also 30x repeated with rows that allocate new heap pages), UPDATE (in place and relocating), DELETE, join queries (hash / index / nested loop as the optimizer chooses, 5x repeated), statements that fail (unknown column/table, type error), statements aborted by a lock conflict with a parked transaction; each ended by commit or abort). Oracle: with no other transaction active, every page with a positive pin count in BufferPoolManager.GetPages() after the statement and its commit/abort already had a positive pin count before it (pin-count growth on pages that were pinned before is recorded as a class, not a violation). Non-trivial = a statement that was planned and executed (plan shape recorded as class)."
+const rule = "Case = (two or three tables with skip-list / no indexes, 0-250 rows each, pool from the minimum (3 frames per skip-list index + 8) to +60 frames; 1-10 steps: SELECT (sequential / index range scans, selection, projection), INSERT (also 30x repeated with rows that allocate new heap pages), UPDATE (in place and relocating), DELETE, join queries (hash / index / nested loop join as the optimizer chooses under the tables' statistics states none / computed after 2 rows / fresh, 5x repeated), statistics updates, statements that fail (unknown column/table, type error), statements aborted by a lock conflict with a parked transaction; each ended by commit or abort). Oracle: with no other transaction active, every page with a positive pin count in BufferPoolManager.GetPages() after the statement and its commit/abort already had a positive pin count before it (pin-count growth on pages that were pinned before is recorded as a class, not a violation). Non-trivial = a statement that was planned and executed (plan shape recorded as class)."
 
 var assumptions = []string{
 	"CREATE TABLE is outside the statement list (each skip-list index keeps 3 pages pinned for its lifetime by design)",
